@@ -20,7 +20,7 @@ ENGINES = {
 }
 SETUP_ENGINES = ["node", "ext_c27", "shadow_crdt", "shadow_sync", "shadow_canonical", "ext_radicle"]
 # replay include files that exist in harness sources of an engine but belong to no registered harness (yet)
-EXTRA_REPLAY_FILES = {"ext_radicle": ["ext_radicle"], "shadow_canonical": ["shadow_canonical"], "shadow_sync": ["shadow_sync"], "shadow_crdt": ["shadow_crdt"], "ext_c27": ["ext_c27"], "node": ["wire_c13", "wire_c14", "service_c29", "limiter"]}
+EXTRA_REPLAY_FILES = {"ext_radicle": ["ext_radicle"], "shadow_canonical": ["shadow_canonical"], "shadow_sync": ["shadow_sync"], "shadow_crdt": ["shadow_crdt"], "ext_c27": ["ext_c27"], "node": ["wire_c13", "wire_c14", "wire_c15", "service_c29", "limiter"]}
 
 Q = ["quick", "thorough"]
 T = ["thorough"]
@@ -295,5 +295,41 @@ PROPERTIES["C21"] = {
         for n in (1, 2, 3)
     ],
     "outside": ["public keys, DIDs and repository ids (multibase/base58 makes the Kani compiler panic and is a 32-byte big-number division loop)", "user agents (str::split / split_once over symbolic bytes does not finish in 900 s even at 1 symbolic byte)", "aliases longer than 3 bytes and the 32-byte limit", "Unicode (non-ASCII) control and white-space characters are only checked for not panicking"],
+    "assumptions": [],
+}
+
+# ---------------------------------------------------------------------------------------------
+# C13 / C15 (wire decoders; literal layouts)
+
+import gen_wire_layouts as _gw  # noqa: E402
+
+_OID = ["git2::Oid::from_bytes -> copy of the 20 raw bytes (libgit2 FFI; also avoids a Kani compiler ICE)"]
+_c13h = []
+for _n, _b in [("timestamp", "8 symbolic bytes, any prefix length"), ("node_id", "32 symbolic bytes, any prefix length"), ("filter", "8 symbolic bytes, any prefix length (size field symbolic)"),
+               ("info", "46 symbolic bytes, any prefix length"), ("zero_bytes", "12 symbolic bytes, any prefix length (count field symbolic)"),
+               ("alias_l2", "length prefix 2 + 2 symbolic bytes"), ("alias_l3", "length prefix 3 + 3 symbolic bytes"), ("string_l3", "length prefix 3 + 3 symbolic bytes")]:
+    _c13h.append(H(f"c13_decode_{_n}", "node", "wire::verif_kani::c13", "wire_c13", tiers=Q, covers=1, stubs=_OID,
+        functions=[f"<{_n} as wire::Decode>::decode"], bounds=_b + ": no panic / overflow / out-of-bounds / failed assert"))
+_c15h = []
+for _n in ["c15_ping_z0", "c15_ping_z1", "c15_ping_z3", "c15_pong_z0", "c15_pong_z2", "c15_pong_trailing", "c15_unknown_type"] + [l[0] for l in _gw.LAYOUTS]:
+    h = H(_n, "node", "wire::verif_kani::c15", "wire_c15", tiers=Q, covers=1, stubs=_OID,
+          functions=["wire::deserialize::<Message>", "<Message as wire::Decode>::decode", "<Message as wire::Encode>::encode"],
+          bounds=f"layout {_n}: type tag / length prefixes / counts literal, every content byte symbolic: decoding never panics; bytes that decode re-encode to exactly the same bytes within the 16-bit size limit")
+    _c15h.append(h)
+    if "subscribe" in _n or "unknown" in _n or "info" in _n:
+        _c13h.append(h)
+PROPERTIES["C13"] = {
+    "harnesses": _c13h,
+    "outside": ["git request header (pkt-line) parsing: not encodable (see harness/incrate/worker.rs); the baseline panics there for length fields < 4 or > 1024 are known from reading but are NOT established by a check",
+                "node / inventory / refs announcements, addresses and user agents with symbolic length prefixes (no layout finishes in 15 min)",
+                "Service::handle_message / handle_announcement, gossip::Store asserts (timestamp 0, since > until): Service state over hash maps + sqlite",
+                "message sequences, connection states, the reactor (schedules)"],
+    "assumptions": [],
+}
+PROPERTIES["C15"] = {
+    "harnesses": _c15h,
+    "outside": ["announcement messages (node, inventory, refs) and Subscribe with a valid 1/4/16 KiB filter: length-prefixed vectors/strings are not encodable within reach",
+                "value round trip decode(encode(m)) == m is only covered through byte canonicity of the layouts (git2::Oid equality is FFI)",
+                "size-limit constants (INVENTORY_LIMIT, REF_REMOTE_LIMIT, ADDRESS_LIMIT) vs the frame limit"],
     "assumptions": [],
 }
